@@ -36,6 +36,7 @@ pub enum PdaInstructionSet {
     NoteLast(NoteLast),
     NoteFirst(NoteFirst),
     NoteEvent(NoteEvent),
+    Quote(Quote),
 }
 
 // ------------------------------------------------------------------------------------------ account types + seeds
@@ -323,6 +324,71 @@ fn NoteEvent(accounts: &mut NoteAccounts) -> Result<()> {
     Ok(())
 }
 
+// ------------------------------------------------------------------------------------------ fixed-point fields
+/// Account data with a fixed-point field of every storage integer, signed and unsigned (the IDL describes such a field as
+/// `FixedPoint { ty: <the integer the bits are stored in>, frac }`).  Debug prints the STORED INTEGER of every field
+/// (`to_bits()`), which is what a reader of the IDL layout obtains before scaling by 2^-frac.
+#[zero_copy(pod)]
+#[derive(Default, Eq, PartialEq, ProgramAccount)]
+pub struct Rates {
+    pub s128: star_frame::fixed::types::I80F48,
+    pub u128: star_frame::fixed::types::U64F64,
+    pub s64: star_frame::fixed::types::I48F16,
+    pub u64: star_frame::fixed::types::U32F32,
+    pub s32: star_frame::fixed::types::I16F16,
+    pub u32: star_frame::fixed::types::U20F12,
+    pub s16: star_frame::fixed::types::I8F8,
+    pub u16: star_frame::fixed::types::U12F4,
+    pub s8: star_frame::fixed::types::I4F4,
+    pub u8: star_frame::fixed::types::U1F7,
+}
+impl core::fmt::Debug for Rates {
+    fn fmt(&self, f: &mut core::fmt::Formatter<'_>) -> core::fmt::Result {
+        let (a, b, c, d, e, g, h, i, j, k) =
+            (self.s128, self.u128, self.s64, self.u64, self.s32, self.u32, self.s16, self.u16, self.s8, self.u8);
+        f.debug_struct("Rates")
+            .field("s128", &a.to_bits())
+            .field("u128", &b.to_bits())
+            .field("s64", &c.to_bits())
+            .field("u64", &d.to_bits())
+            .field("s32", &e.to_bits())
+            .field("u32", &g.to_bits())
+            .field("s16", &h.to_bits())
+            .field("u16", &i.to_bits())
+            .field("s8", &j.to_bits())
+            .field("u8", &k.to_bits())
+            .finish()
+    }
+}
+/// what the `fixed` crate itself says about the fields of `Rates`: (field, signed, storage bits, fractional bits)
+pub fn c17_fixed_manifest() -> Vec<(&'static str, bool, u32, u32)> {
+    use star_frame::fixed::types::*;
+    macro_rules! row {
+        ($n:literal, $t:ty) => {
+            ($n, <$t>::IS_SIGNED, (core::mem::size_of::<$t>() * 8) as u32, <$t>::FRAC_NBITS)
+        };
+    }
+    vec![
+        row!("s128", I80F48), row!("u128", U64F64), row!("s64", I48F16), row!("u64", U32F32), row!("s32", I16F16),
+        row!("u32", U20F12), row!("s16", I8F8), row!("u16", U12F4), row!("s8", I4F4), row!("u8", U1F7),
+    ]
+}
+
+#[derive(AccountSet, Debug)]
+pub struct QuoteAccounts {
+    pub author: Signer,
+    pub rates: Account<Rates>,
+}
+#[derive(BorshSerialize, BorshDeserialize, Debug, InstructionArgs)]
+pub struct Quote {
+    pub market: u8,
+}
+#[star_frame_instruction]
+fn Quote(accounts: &mut QuoteAccounts) -> Result<()> {
+    let _ = accounts;
+    Ok(())
+}
+
 /// The FULL layouts of the types above as the runtime (de)serialises them, written by hand from the declarations
 /// (nothing here is derived from the IDL): per type its kind ("args" = borsh instruction data after the discriminant,
 /// "account" = account data after the discriminant) and its layout
@@ -358,6 +424,7 @@ c17_support::fill_struct!([] MoveFundsClientAccounts { admin, owner, admin_vault
 c17_support::fill_struct!([] TransferClientAccounts { source, dest, escrow });
 c17_support::fill_struct!([] SettleClientAccounts { admin, legs });
 c17_support::fill_struct!([] NoteClientAccounts { author, journal, stamp });
+c17_support::fill_struct!([] QuoteClientAccounts { author, rates });
 
 pub fn __c17_probe() -> c17_support::Probe {
     use c17_support::*;
@@ -371,6 +438,7 @@ pub fn __c17_probe() -> c17_support::Probe {
         ix_facts::<P, NoteLast, _>(Some(metas_of::<<NoteLast as StarFrameInstruction>::Accounts<'static, 'static>>(id))),
         ix_facts::<P, NoteFirst, _>(Some(metas_of::<<NoteFirst as StarFrameInstruction>::Accounts<'static, 'static>>(id))),
         ix_facts::<P, NoteEvent, _>(Some(metas_of::<<NoteEvent as StarFrameInstruction>::Accounts<'static, 'static>>(id))),
+        ix_facts::<P, Quote, _>(Some(metas_of::<<Quote as StarFrameInstruction>::Accounts<'static, 'static>>(id))),
     ];
     let accounts = vec![
         account_facts::<Vault>(),
@@ -379,6 +447,7 @@ pub fn __c17_probe() -> c17_support::Probe {
         account_facts::<Escrow>(),
         account_facts::<Journal>(),
         account_facts::<Stamp>(),
+        account_facts::<Rates>(),
     ];
     let codecs: Vec<(String, &'static str, bool, Codec)> = vec![
         (star_frame::star_frame_idl::item_source::<Vault>(), "account", true, unsized_account_codec::<Vault>),
@@ -394,6 +463,8 @@ pub fn __c17_probe() -> c17_support::Probe {
         (star_frame::star_frame_idl::item_source::<NoteLast>(), "args", true, borsh_args_codec::<NoteLast>),
         (star_frame::star_frame_idl::item_source::<NoteFirst>(), "args", true, borsh_args_codec::<NoteFirst>),
         (star_frame::star_frame_idl::item_source::<NoteEvent>(), "args", true, borsh_args_codec::<NoteEvent>),
+        (star_frame::star_frame_idl::item_source::<Rates>(), "account", true, unsized_account_codec::<Rates>),
+        (star_frame::star_frame_idl::item_source::<Quote>(), "args", true, borsh_args_codec::<Quote>),
     ];
     Probe {
         name: "c17pda",
